@@ -15,7 +15,7 @@ import (
 
 // C13 — absolute paths ignore the start node; relative paths compose with the context.
 
-const ruleC13 = "rapid: document x start node n (any node, incl. attributes/text/comments) x path from the C01/C02 fragments (absolute or relative, drawn by a bit). Metamorphic oracles, engine against engine: (1) absolute p: set(Select(n,p)) = set(Select(root,p)) and Evaluate(count(p)) equal from both starts; (2) relative p: set(Select(n,p)) = set(Select(root, addr(n)/p)) where addr(n) = /node()[i]/.../node()[k] (and /@name for an attribute); (3) P[true()], (P), P | P select the same set as P, and boolean(P) = not(not(P)) = (set non-empty). Each set is additionally compared with the reference evaluator so that 'both wrong in the same way' cannot pass. Non-trivial: n is not the root and the result is non-empty; distinct by (document, n, expression)."
+const ruleC13 = "rapid: document x start node n (any node, incl. attributes/text/comments) x path from the C01/C02 fragments (absolute or relative, drawn by a bit). Metamorphic oracles, engine against engine: (1) absolute p: set(Select(n,p)) = set(Select(root,p)) and count(p), boolean(p), p = '1', p != p, string-length(string-join(p, '|')) equal from both starts; (2) relative p: set(Select(n,p)) = set(Select(root, addr(n)/p)) where addr(n) = /node()[i]/.../node()[k] (and /@name for an attribute); (3) P[true()], (P), P | P select the same set as P, and boolean(P) = not(not(P)) = (set non-empty). Each set is additionally compared with the reference evaluator so that 'both wrong in the same way' cannot pass. Non-trivial: n is not the root and the result is non-empty; distinct by (document, n, expression)."
 
 var uC13 = harness.NewUnit("C13", "rapid-context-composition", ruleC13)
 
@@ -92,17 +92,25 @@ func oracleC13(l *harness.Live) (c struct {
 		if !harness.EqualInts(here, fromRoot) {
 			return c, harness.Failf(describe(l.Doc, fromRoot), describe(l.Doc, here), "an absolute path selects different nodes from "+l.Ctx.Desc()+" than from the root")
 		}
-		cnt := &xast.Call{Name: "count", Args: []xast.Expr{p}}
-		v1, f := evalB(cnt, l.Ctx)
-		if f != nil {
-			return c, f
-		}
-		v2, f := evalB(cnt, l.Doc.Root)
-		if f != nil {
-			return c, f
-		}
-		if !v1.Equal(v2) {
-			return c, harness.Failf(v2.String(), v1.String(), "count(absolute path) differs between "+l.Ctx.Desc()+" and the root")
+		// absolute scalar expressions over the path: the same value from every start node
+		for _, sc := range []xast.Expr{
+			&xast.Call{Name: "count", Args: []xast.Expr{p}},
+			&xast.Call{Name: "boolean", Args: []xast.Expr{p}},
+			&xast.Bin{Op: "=", L: p, R: &xast.Str{S: "1"}},
+			&xast.Bin{Op: "!=", L: p, R: p},
+			&xast.Call{Name: "string-length", Args: []xast.Expr{&xast.Call{Name: "string-join", Args: []xast.Expr{p, &xast.Str{S: "|"}}}}},
+		} {
+			v1, f := evalB(sc, l.Ctx)
+			if f != nil {
+				return c, f
+			}
+			v2, f := evalB(sc, l.Doc.Root)
+			if f != nil {
+				return c, f
+			}
+			if !v1.Equal(v2) {
+				return c, harness.Failf(v2.String(), v1.String(), xast.Render(sc)+" (an absolute expression) differs between "+l.Ctx.Desc()+" and the root")
+			}
 		}
 	} else {
 		c.labels = append(c.labels, "kind:relative")
